@@ -55,8 +55,21 @@ def two_operands(t1, t2):
     return [decl(t1, "a", ("cast", t1, T[t1], reg("RssV"))), decl(t2, "b", ("cast", t2, T[t2], reg("RttV")))]
 
 
+def folding_history():
+    """compiled before everything else on the same compiler: folded literal expressions under a unary operator (a type object
+    that is shared or cached between compilations and modified by constant folding changes what is compiled afterwards)"""
+    L = lambda txt: lit(txt)
+    t64 = ("var", "t", (True, 64))
+    hist = []
+    for e in (("un", "-", ("bin", "+", L("1U"), L("2"))), ("un", "-", ("bin", "*", L("6"), L("2U"))), ("un", "-", ("bin", "+", L("1ULL"), L("1U"))),
+              ("un", "-", L("4U")), ("un", "-", L("4ULL")), ("un", "~", ("bin", "+", L("1"), L("1U"))), ("un", "-", ("bin", "+", L("1LL"), L("1U")))):
+        hist.append([("decl", "int64_t", (True, 64), "t", None), ("assign", t64, "=", e), wr("RddV", t64)])
+    hist.append([wr("RdV", ("bin", "&", reg("RsV"), ("un", "-", L("4U"))))])
+    return hist
+
+
 def programs_C02(rng, tier):
-    out = []
+    out = folding_history()
     for t1 in TN:
         for t2 in TN:
             pre = two_operands(t1, t2)
@@ -71,6 +84,11 @@ def programs_C02(rng, tier):
             for op in ("&&", "||"):
                 out.append(pre + [("if", ("log", op, a, b), [wr("RdV", ("lit", "1", 1, (True, 32)))], None)])
             out.append(pre + [wr("RddV", ("tern", reg("PuV"), a, b))])
+            # a unary operator directly as an operand of + and - (the negation is done in the operand's own promoted type first)
+            for uop in ("-", "~"):
+                for op in ("+", "-"):
+                    out.append(pre + [wr("RddV", ("bin", op, a, ("un", uop, b)))])
+                out.append(pre + [wr("RddV", ("bin", "-", ("un", uop, a), b))])
         a = var("a", t1)
         pre = [decl(t1, "a", ("cast", t1, T[t1], reg("RssV")))]
         for op in ("-", "~"):
@@ -107,6 +125,24 @@ def conversion_sites_C03():
         out.append(pre + [wr("RddV", ("macro", "extract64", [a, ("lit", "4", 4, (True, 32)), ("lit", "12", 12, (True, 32))], (False, 64)))])
         out.append(pre + [("vcall", "set_usr_field", ["bundle", "HEX_REG_FIELD_USR_LPCFG"], [a]),
                           wr("RdV", ("callx", "get_usr_field", ["bundle", "HEX_REG_FIELD_USR_LPCFG"], [], (False, 32)))])
+    # the value of a macro handed on DIRECTLY as an argument of a routine / of another macro whose parameter has another width
+    # or signedness (narrowing must happen, a uint32_t result is zero-extended into a 64-bit parameter)
+    L = lambda k: ("lit", str(k), k, (True, 32))
+    ex64 = lambda x, a_, n_: ("macro", "extract64", [x, L(a_), L(n_)], (False, 64))
+    sx64 = lambda x, a_, n_: ("macro", "sextract64", [x, L(a_), L(n_)], (True, 64))
+    bs32 = lambda x: ("macro", "bswap32", [x], (False, 32))
+    for inner in (ex64(reg("RssV"), 8, 40), sx64(reg("RssV"), 8, 40), sx64(reg("RssV"), 24, 9)):
+        for name in ("clz32", "clo32", "revbit32", "fbrev"):
+            out.append([wr("RddV", call(name, inner))])
+        out.append([wr("RddV", ("macro", "extract32", [inner, L(0), L(8)], (False, 32)))])
+        out.append([wr("RddV", bs32(inner))])
+    for inner in (bs32(reg("RsV")), ("macro", "extract32", [reg("RsV"), L(4), L(28)], (False, 32))):
+        for name in ("clz64", "clo64"):
+            out.append([wr("RddV", call(name, inner))])
+        out.append([wr("RddV", sx64(inner, 0, 40))])
+        out.append([wr("RddV", ex64(inner, 0, 40))])
+        out.append([wr("RddV", ("macro", "bswap64", [inner], (False, 64)))])
+        out.append([wr("RddV", ("macro", "bswap16", [inner], (False, 16)))])
     return out
 
 
@@ -150,7 +186,12 @@ SFX = ["", "U", "LL", "ULL", "u", "ull"]
 
 
 def programs_C09(rng, tier):
-    out = []
+    out = folding_history()
+    # literals of every suffix after that history: their types are those of their spelling
+    for txt in ("0x80000000U", "0xffffffffU", "5U", "0x8000000000000000ULL", "5ULL", "0x80000000", "3000000000"):
+        out.append([wr("RddV", lit(txt))])
+        out.append([wr("RdV", ("cmp", ">", lit(txt), reg("RsV")))])
+        out.append([wr("RddV", ("bin", "+", reg("RssV"), lit(txt)))])
     lits = [lit(l + s) for l in LITS for s in SFX]
     n = 300 if tier == "quick" else 3000
     one = ("lit", "1", 1, (True, 32))
@@ -170,6 +211,17 @@ def programs_C09(rng, tier):
         else:
             # metamorphic shape: the same operation with the literal routed through a local (nothing folds)
             out.append([("decl", "int64_t", (True, 64), "t", a), wr("RddV", ("bin", "+", var("t", "int64_t"), b))])
+    # sizeof directly next to a use of its own operand: the operand stays declared and is read where it is used
+    for opnd, w, big in (("RsV", 32, False), ("RtV", 32, False), ("RssV", 64, True), ("PuV", 8, False)):
+        o_ = ("imm", opnd, (True, 32)) if opnd == "siV" else reg(opnd)
+        sz = ("lit", f"sizeof({opnd})", (w + 7) // 8, (True, 32))
+        dst = "RddV" if big else "RdV"
+        out.append([wr(dst, ("bin", "+", o_, sz))])
+        out.append([wr(dst, ("bin", "+", sz, o_))])
+        out.append([wr("RdV", ("cmp", "<", o_, sz))])
+        out.append([wr(dst, ("bin", "*", sz, ("bin", "+", o_, sz)))])
+    out.append([("assign", reg("RxV"), "+=", ("lit", "sizeof(RxV)", 4, (True, 32)))])
+    out.append([("assign", reg("RxxV"), "+=", ("lit", "sizeof(RxxV)", 8, (True, 32)))])
     # sizeof: a compile-time constant, ceil(width / 8) of its operand's own (unpromoted) type
     for opnd, w in (("PuV", 8), ("RsV", 32), ("RssV", 64), ("CsV", 32), ("NsN", 32)):     # not an immediate: its operand object would register an imm_assign the literal cannot carry
         sz = ("lit", f"sizeof({opnd})", (w + 7) // 8, (True, 32))
@@ -295,6 +347,16 @@ def programs_C05(rng, tier):
         out.append([("if", c, [wr("RdV", L(1))], [wr("RdV", L(2))])])
         out.append([("if", ("cast", "int64_t", T["int64_t"], c), [wr("RdV", L(1))], [wr("RdV", L(2))])])
         out.append([decl("uint32_t", "n", L(0)), ("for", "i", ("cast", t, T[t], ("bin", "&", reg("RsV"), L(0x103))), [("assign", n_, "+=", L(1))]), wr("RdV", n_)])
+    # BOTH arms of one ?: are statement-expressions: exactly one of the two statements runs
+    v5, iv5 = var("v", "uint32_t"), ("var", "i", (False, 32))
+    pre5 = [("assign", iv5, "=", reg("RsV")), decl("uint32_t", "v", reg("RtV"))]
+    one5 = L(1)
+    for cnd in (reg("PuV"), ("cmp", ">", reg("RsV"), L(0)), ("cmp", "==", reg("RsV"), reg("RtV")), ("not", reg("RsV")) if False else ("cmp", "!=", reg("RtV"), L(0))):
+        se1 = ("stmtexpr", "", T["uint32_t"], "v", ("bin", "+", v5, L(5)), False)
+        se2 = ("stmtexpr", "", (False, 32), "i", ("bin", "-", iv5, L(7)), False)
+        out.append(pre5 + [wr("RdV", ("tern", cnd, se1, se2)), wr("ReV", ("bin", "+", iv5, v5))])
+        out.append(pre5 + [wr("RdV", ("tern", cnd, se2, se1)), wr("ReV", iv5), wr("RxV", v5)])
+        out.append(pre5 + [decl("uint32_t", "w", ("tern", cnd, se1, se2)), wr("RdV", var("w", "uint32_t")), wr("ReV", iv5), wr("RxV", v5)])
     return out
 
 
@@ -323,6 +385,23 @@ def programs_C06(rng, tier):
                                        ("stmtexpr", "", (False, 32), "i", ("bin", "-", iv, one), False))), wr("ReV", ("bin", "+", iv, v))])   # both arms statement-expressions
         out.append(pre + [wr("RdV", ("tern", reg("PuV"), h(), reg("RvV")))])                                      # ?: arm
         out.append(pre + [wr("RdV", ("bin", "+", h(), call("clz32", reg("RvV")))), wr("ReV", iv)])                # two in one expression
+    # a product with a (literal or folded) zero factor still evaluates its other factor exactly once, in place
+    zero = ("lit", "0", 0, (True, 32))
+    fz = ("bin", "-", one, one)
+    for h in hy[:6]:
+        for z in (zero, fz):
+            out.append(pre + [("assign", iv, "=", ("lit", "3", 3, (True, 32))), wr("RdV", ("bin", "*", h(), z)), wr("ReV", iv), wr("RxV", v)])
+            out.append(pre + [wr("RdV", ("bin", "+", reg("RvV"), ("bin", "*", z, h()))), wr("ReV", iv), wr("RxV", v)])
+        out.append(pre + [("if", reg("PuV"), [wr("RdV", ("bin", "*", h(), zero))], None), wr("ReV", iv), wr("RxV", v)])
+        out.append(pre + [("for", "j", ("lit", "3", 3, (True, 32)), [wr("RxV", ("bin", "+", reg("RxV"), ("bin", "*", h(), zero)))]), wr("ReV", iv)])
+    # compilations that FAIL after a value-producing operation was translated (unknown routine / undeclared name to its right,
+    # in the other arm, later in a loop body), each directly in front of an ordinary program
+    for bad in ("RdV = i++ + frobnicate(RsV);", "RdV = (PuV ? clz32(RsV) : undeclared_x);", "for (i = 0; i < 2; i++) { RdV = clz32(RsV); ReV = undeclared_y; }",
+                "RdV = ({ int32_t q = RsV; q; }) + frobnicate(RtV);", "RdV = clz32(RsV) + undeclared_z;"):
+        out.append([("raw", bad)])
+        out.append(pre + [wr("RdV", ("bin", "+", ("post", "i", "++"), reg("RvV"))), wr("ReV", iv)])
+        out.append([("raw", bad)])
+        out.append([wr("RdV", one)])
     out += void_call_programs()
     # statement-expression arms guarded by every comparison operator (the guard of an else arm is the NEGATED condition,
     # which differs from the mirrored one exactly when both sides are equal)
@@ -629,6 +708,20 @@ def user_subs():
     out.append(("vf_loopcnt", "uint32_t", [("uint32_t", "n")],
                 [decl("uint32_t", "t", L(0)), ("for", "i", ("bin", "&", v32("n"), L(7)), [("assign", v32("t"), "+=", call("clz32", ("shift", ">>", v32("n"), ("var", "i", (False, 32)))))]),
                  ("ret", v32("t"))]))
+    # a folded unsigned constant returned through a wider return type (C: converted from unsigned int, i.e. zero-extended)
+    u64r = lambda e: [("ret", e)]
+    out.append(("vf_umask", "uint64_t", [("uint32_t", "v")], u64r(("un", "~", ("lit", "0U", 0, (False, 32))))))
+    out.append(("vf_himask", "uint64_t", [("uint32_t", "v")], u64r(("un", "~", ("lit", "0xffU", 255, (False, 32))))))
+    out.append(("vf_usub", "int64_t", [("uint32_t", "v")], u64r(("bin", "-", ("lit", "0U", 0, (False, 32)), ("lit", "16", 16, (True, 32))))))
+    out.append(("vf_useln", "uint64_t", [("uint32_t", "v")],
+                [("if", ("cmp", "!=", v32("v"), L(0)), [("ret", ("un", "~", ("lit", "0U", 0, (False, 32))))], [("ret", ("lit", "5", 5, (True, 32)))])]))
+    # two routines with character-identical body and return type whose like-named parameters differ in type
+    out.append(("vf_lsr4_s", "uint32_t", [("int32_t", "v")], [("ret", ("shift", ">>", ("var", "v", (True, 32)), L(4)))]))
+    out.append(("vf_lsr4_u", "uint32_t", [("uint32_t", "v")], [("ret", ("shift", ">>", v32("v"), L(4)))]))
+    out.append(("vf_lt_s", "uint32_t", [("int32_t", "v"), ("int32_t", "w")], [("ret", ("cmp", "<", ("var", "v", (True, 32)), ("var", "w", (True, 32))))]))
+    out.append(("vf_lt_u", "uint32_t", [("uint32_t", "v"), ("uint32_t", "w")], [("ret", ("cmp", "<", v32("v"), v32("w")))]))
+    out.append(("vf_wide8", "uint32_t", [("uint8_t", "v")], [("ret", ("bin", "+", ("var", "v", (False, 8)), L(1)))]))
+    out.append(("vf_wide32", "uint32_t", [("uint32_t", "v")], [("ret", ("bin", "+", v32("v"), L(1)))]))
     return out
 
 
